@@ -1,6 +1,7 @@
 package harness
 
 import (
+	"time"
 	"verifrt/simos"
 
 	"fmt"
@@ -182,6 +183,9 @@ func checkC08(sc *Scenario, t *Truth) []Violation {
 	}
 	for _, c := range t.Calls {
 		if c.RetSeq < 0 {
+			if (c.Op == "start" || c.Op == "stop" || c.Op == "restart") && sc.Strategy.StallPermille == 0 && t.EndT-c.CallT > 10*time.Minute {
+				vs = append(vs, Violation{"C08", "request-never-returned", c.Op, fmt.Sprintf("%s invoked at t=%v had not returned %v later", c.Desc, c.CallT, t.EndT-c.CallT), c.CallSeq})
+			}
 			continue
 		}
 		switch c.Op {
@@ -190,6 +194,19 @@ func checkC08(sc *Scenario, t *Truth) []Violation {
 			continue
 		}
 		rep := c.Arg
+		if p := sc.specOfReplica(rep); p != nil && p.IsDaemon && c.Op == "stop" && c.Err == "" && t.Final != nil && sc.Strategy.StallPermille == 0 {
+			// a daemon has no command to look at: a stop that was acknowledged (and not followed
+			// by a start) leaves it neither Launching nor Launched
+			later := false
+			for _, d := range t.Calls {
+				if d.Arg == rep && isStartOp(d.Op) && (d.CallSeq > c.CallSeq || d.RetSeq < 0 || d.RetSeq > c.CallSeq) {
+					later = true // (also a restart that was under way and launches afterwards)
+				}
+			}
+			if st, ok := t.Final.States[rep]; ok && !later && (st.Status == "Launched" || st.Status == "Launching") {
+				vs = append(vs, Violation{"C08", "stop-did-not-terminate", "daemon", fmt.Sprintf("%s returned success but the daemon %s is still reported %s at the end of the run", c.Desc, rep, st.Status), c.RetSeq})
+			}
+		}
 		if !known[rep] {
 			if c.Err == "" {
 				vs = append(vs, Violation{"C08", "unknown-name-accepted", c.Op, fmt.Sprintf("%s on unknown process %q returned success", c.Op, rep), c.RetSeq})
@@ -238,6 +255,18 @@ func checkC08(sc *Scenario, t *Truth) []Violation {
 					if live {
 						vs = append(vs, Violation{"C08", "stop-refused-while-running", "", fmt.Sprintf("%s failed with %q although a command of %s was alive during the whole request", c.Desc, c.Err, rep), c.RetSeq})
 					}
+				}
+			} else if sc.Strategy.StallPermille == 0 {
+				// any other failure of a stop of a known process: the command was signalled and
+				// went away - what is there to fail?
+				gone := true
+				for _, in := range t.ByRep[rep] {
+					if in.AliveAt(c.RetSeq) {
+						gone = false
+					}
+				}
+				if gone {
+					vs = append(vs, Violation{"C08", "stop-failed-although-stopped", "", fmt.Sprintf("%s failed with %q after %v although no command of %s is alive any more", c.Desc, c.Err, c.RetT-c.CallT, rep), c.RetSeq})
 				}
 			}
 		case "restart":
